@@ -274,7 +274,7 @@ func runStoreTrace(seed uint64, dir string, steps int) *storeTrace {
 		for i := range txns {
 			items = append(items, C("tx", txns[i], hintsAll[i]))
 		}
-		tr.Events = append(tr.Events, event{D: L(items...), O: []term{C("OExec", results, snap.term())}})
+		tr.Events = append(tr.Events, event{D: L(items...), O: []term{C("OExec", L(txns...), results, snap.term())}})
 	}
 	return tr
 }
